@@ -320,7 +320,7 @@ type DestScript struct {
 	Name string
 	// AckMenu is the answer menu of every ack gate. Answers: "ok" (all records of the request acked), "nack" (all
 	// rejected), "n:<bits>" (bit i set = record i rejected), "err" (the plugin's Run fails), and the reply-shape
-	// answers of C09: "wrongpos", "extra", "none", "reorder", "dup".
+	// answers of C09: "wrongpos", "extra", "none", "reorder", "dup", "empty" (responses without acks), "chunkextra".
 	AckMenu []string
 	// MenuFor overrides AckMenu per request (k = ordinal of the request, n = records in it).
 	MenuFor      func(k, n int) []string
@@ -486,7 +486,7 @@ func (d *Dest) Run(ctx context.Context, stream pconnector.DestinationRunStream) 
 			switch a {
 			case "wrongpos":
 				ack.Position = opencdc.Position("bogus")
-			case "none":
+			case "none", "empty":
 				continue
 			}
 			kind := "ack"
@@ -523,6 +523,27 @@ func (d *Dest) Run(ctx context.Context, stream pconnector.DestinationRunStream) 
 			}
 		}
 		if a == "none" {
+			continue
+		}
+		if a == "empty" {
+			// one response without any ack per record of the write: the plugin answers, but confirms nothing
+			for range recs {
+				if err := srv.Send(pconnector.DestinationRunResponse{}); err != nil {
+					return err
+				}
+			}
+			continue
+		}
+		if a == "chunkextra" && len(resp.Acks) >= 2 {
+			// the write is confirmed in two chunks, the second one carrying one ack too many
+			first := pconnector.DestinationRunResponse{Acks: resp.Acks[:1]}
+			second := pconnector.DestinationRunResponse{Acks: append(append([]pconnector.DestinationRunResponseAck{}, resp.Acks[1:]...), resp.Acks[len(resp.Acks)-1])}
+			if err := srv.Send(first); err != nil {
+				return err
+			}
+			if err := srv.Send(second); err != nil {
+				return err
+			}
 			continue
 		}
 		if err := srv.Send(resp); err != nil {
